@@ -415,6 +415,9 @@ func validateParamHeaders(header http.Header, msg *jsonrpc.Request, tool *Tool) 
 	for _, b := range paramHeaders {
 		fullHeader := paramHeaderPrefix + b.Header
 		headerVal := header.Get(fullHeader)
+		// A header that is present with an empty value mirrors an empty string
+		// argument; only a header that is not there at all is missing.
+		headerPresent := len(header.Values(fullHeader)) > 0
 		argRaw, argExists := lookupArgument(raw.Arguments, b.Path)
 
 		if !argExists || string(argRaw) == "null" {
@@ -424,7 +427,7 @@ func validateParamHeaders(header http.Header, msg *jsonrpc.Request, tool *Tool) 
 			continue
 		}
 
-		if headerVal == "" {
+		if !headerPresent {
 			return fmt.Errorf("header mismatch: missing %s header for parameter %q", fullHeader, strings.Join(b.Path, "."))
 		}
 
